@@ -57,7 +57,9 @@ def label(f):
 
 
 def spec_key(maxfaults):
-    return vf.spec_hash("Archive", "ArchiveMC") + "-%d" % maxfaults
+    import hashlib
+    cfgs = "".join(open(os.path.join(vf.SPEC, f)).read() for f in ("Archive_mc.cfg", "Archive_gen.cfg"))
+    return vf.spec_hash("Archive", "ArchiveMC") + hashlib.sha1(cfgs.encode()).hexdigest()[:6] + "-%d" % maxfaults
 
 
 def cfg_text(name, maxfaults):
@@ -382,9 +384,15 @@ def selftest():
         judge(work, rows, v2, new_stats())
         ok1 = any(v["sig"].startswith("C20:MustReject[altered:state]") for v in v2.viol)
         v3 = vf.Verdict(PID)
-        pipeline("quick", scen, work, v3, new_stats(), bases=["r513"], nshards=1, env={"H_SNAP_PERTURB": "5000"})
+        pipeline("quick", scen, work, v3, new_stats(), bases=["r513"], nshards=1, env={"H_SNAP_PERTURB": "997"})
         ok2 = bool({v["sig"] for v in v3.viol} - base_sigs)
         print("selftest: corrupted recorded field rejected by TLC: %s ; perturbed reader result rejected: %s" % (ok1, ok2))
+        os.makedirs(os.path.join(vf.VERIF, "evidence", "selftest"), exist_ok=True)
+        json.dump({"property": PID, "ok": bool(ok1 and ok2), "rejections": {
+            "clean (single faults, base r513)": sorted(base_sigs),
+            "corrupted-field: one verify rejection of a state.bin content flip recorded as accepted-same": sorted({v["sig"] for v in v2.viol}),
+            "perturbed-call: every 997th rejection by archive.go read reported as accepted-same (H_SNAP_PERTURB)": sorted({v["sig"] for v in v3.viol})}},
+            open(os.path.join(vf.VERIF, "evidence", "selftest", PID + ".json"), "w"), indent=1, sort_keys=True)
         return 0 if ok1 and ok2 else 2
     finally:
         shutil.rmtree(work, ignore_errors=True)
